@@ -148,7 +148,14 @@ func (p *pipe) receiver() {
 					// NB: If we ever do work to break
 					// up the locking, we will need to
 					// revisit this.
-					c.recvQ <- m
+					// (With a zero length queue there is
+					// never room: drop rather than block
+					// while holding the socket lock.)
+					select {
+					case c.recvQ <- m:
+					default:
+						m.Free()
+					}
 				}
 			}
 		}
